@@ -1,5 +1,5 @@
 \* random longer behaviours (simulation): 3 allocations, 6 arrays
-SPECIFICATION Spec
+SPECIFICATION SimSpec
 CONSTANTS
   MaxBufs = 3
   Addrs = {1, 2}
@@ -7,7 +7,7 @@ CONSTANTS
   MaxViews = 6
   MaxOps = 12
   MaxVer = 1
-  UseKinds = {"even", "head", "headT", "odd", "mid", "rev"}
+  UseKinds = {"even", "head", "headT", "odd", "mid", "tail", "rev"}
   FirstFit = FALSE
   KeyStrides = TRUE
   Finalizer = TRUE
@@ -17,5 +17,4 @@ INVARIANT Transparent
 INVARIANT EntriesFresh
 INVARIANT KeysDistinct
 INVARIANT NoLeak
-INVARIANT EmitFull
 CHECK_DEADLOCK FALSE
